@@ -689,9 +689,12 @@ def replay(c, path):
     kind, detail = verdict(case, h, m)
     vlib.log(f"[C02] replay verdict: {kind} {detail}; C score {h and h['score']} model optimum {m and m.get('opt')}")
     ok = kind.startswith("ok")
-    c.oblige("replayed case satisfies the property", ok, detail)
+    known = kind == "finding-partial" and is_known(KEY_PARTIAL)
+    c.oblige("replayed case satisfies the property (or is exactly the listed known finding)", ok or known, detail)
     if not ok:
         c.violation({"kind": kind, "what": detail, "case": case, "c_score": h and h["score"], "model_optimum": m and m.get("opt"),
-                     "model_optimal_alignment": m and m.get("align"), "c_hyp": h and h["hyp"], "c_segments": h and h["segs"]},
-                    found_input=kind.startswith("violation"))
+                     "model_optimal_alignment": m and m.get("align"), "c_hyp": h and h["hyp"], "c_segments": h and h["segs"],
+                     "c_exit_frame": h and h["exit_frame"]},
+                    found_input=kind.startswith("violation") or kind.startswith("finding"),
+                    finding_key=KEY_PARTIAL if kind == "finding-partial" else None)
     c.cov.update({"evaluations": 1, "distinct_nontrivial": 1})
